@@ -49,10 +49,17 @@ FORMATS = ("ini", "toml", "setupcfg", "discover")
 FILLERS = ("warn_unused_ignores", "warn_unreachable")
 # options whose final value is computed from another option by process_options (documented couplings);
 # they cannot be used as the observed option of a precedence replay
-COUPLED = {"disable_bytearray_promotion", "disable_memoryview_promotion",   # := strict_bytes
-           "show_column_numbers",                                            # implied by show_error_end
-           "cache_fine_grained",                                             # implied by logical_deps
-           "local_partial_types"}                                            # implied by cache_fine_grained
+COUPLED = {"disable_bytearray_promotion", "disable_memoryview_promotion"}   # := strict_bytes, unconditionally
+ERRCODE = "truthy-bool"     # the error code observed by the enable/disable_error_code option map
+
+
+def obs(o: Any, om: dict[str, Any]) -> Any:
+    """The observed value of the option map's option on an Options object."""
+    if om["kind"] == "errcode":
+        en = {c.code for c in o.enabled_error_codes}
+        dis = {c.code for c in o.disabled_error_codes}
+        return "enabled" if ERRCODE in en else ("disabled" if ERRCODE in dis else "default")
+    return getattr(o, om["dest"])
 
 
 # =========================================================================== option tables
@@ -91,14 +98,21 @@ def build_optmaps() -> dict[str, Any]:
                 if s.startswith("--"):
                     flags.setdefault(a.dest, {}).setdefault(a.const, []).append(s)
     maps: dict[str, Any] = {}
+    strict_members = dict(define_options_strict())
 
     def boolmap(dest: str, per_module: bool) -> None:
         dv = getattr(tmpl, dest)
         real = {"p": (not dv), "q": dv, "d": dv}
         cfgsp = {ch: [(dest, real[ch])] + [(k, not real[ch]) for k in _inversions(dest, tmpl)] for ch in "pq"}
         cmd = {ch: [[f] for f in flags.get(dest, {}).get(real[ch], [])] for ch in "pq"}
+        if dest == "allow_redefinition":      # documented alias key (confval allow_redefinition_new)
+            for ch in "pq":
+                cfgsp[ch].append(("allow_redefinition_new", real[ch]))
         maps[dest] = {"dest": dest, "kind": "bool", "per_module": per_module, "real": real, "cfg": cfgsp,
                       "cmd": cmd, "has_cmd": all(cmd[ch] for ch in "pq")}
+        # member of the --strict / strict=True group: the umbrella assigns the model value "p"
+        if dest in strict_members and strict_members[dest] == real["p"]:
+            maps[dest]["umbrella"] = {"cfg": ("strict", True), "cmd": "--strict"}
     for dest in sorted(PER_MODULE_OPTIONS):
         if isinstance(getattr(tmpl, dest, None), bool) and dest not in COUPLED and dest != "mypyc":
             boolmap(dest, True)
@@ -114,6 +128,26 @@ def build_optmaps() -> dict[str, Any]:
               "junit_xml": ("--junit-xml", "/tmp/c17-p.xml", "/tmp/c17-q.xml"),
               "junit_format": ("--junit-format", "per_file", "global"), "num_workers": ("--num-workers", 2, 3),
               "sqlite_num_shards": ("--sqlite-num-shards", 4, 8), "quickstart_file": ("--quickstart-file", "/tmp/c17-qs-p", "/tmp/c17-qs-q")}
+    # enabling / disabling ONE error code: per-module sections and inline comments "adjust" the global state
+    # (error_codes.rst); observed through enabled_error_codes / disabled_error_codes
+    ec = {"p": ("enable_error_code", "--enable-error-code", "enabled"), "q": ("disable_error_code", "--disable-error-code", "disabled")}
+    maps["error_code"] = {
+        "dest": "error_code", "kind": "errcode", "per_module": True,
+        "real": {"p": "enabled", "q": "disabled", "d": "default"},
+        "cfg": {ch: [(ec[ch][0], [ERRCODE])] for ch in "pq"},
+        "cmd": {ch: [[ec[ch][1], ERRCODE], ["%s=%s" % (ec[ch][1], ERRCODE)]] for ch in "pq"}, "has_cmd": True,
+        # on the global level (command line + [mypy]) "enabling overrides disabling" whatever the source
+        # (config_file.rst, confval enable_error_code): configurations where the two disagree are left out
+        "skip_global_conflict": True}
+    mn = defaults_min_version()
+    pvs = ["3.%d" % k for k in range(mn[1], mn[1] + 6) if (3, k) != tuple(sys.version_info[:2])][:2]
+    maps["python_version"] = {
+        "dest": "python_version", "kind": "valued", "per_module": False,
+        "real": {"p": tuple(int(x) for x in pvs[0].split(".")), "q": tuple(int(x) for x in pvs[1].split(".")),
+                 "d": tmpl.python_version},
+        "cfg": {"p": [("python_version", pvs[0])], "q": [("python_version", pvs[1])]},
+        "cmd": {"p": [["--python-version", pvs[0]]], "q": [["--python-version=" + pvs[1]]]}, "has_cmd": True,
+        "ctx": ["--no-site-packages"]}      # (otherwise the command-line form looks for that interpreter)
     for dest, (flag, pv, qv) in valued.items():
         real = {"p": pv, "q": qv, "d": getattr(tmpl, dest)}
         maps[dest] = {"dest": dest, "kind": "valued", "per_module": False, "real": real,
@@ -125,6 +159,16 @@ def build_optmaps() -> dict[str, Any]:
         if isinstance(getattr(tmpl, dest, None), bool):
             boolmap(dest, False)
     return maps
+
+
+def define_options_strict() -> list[tuple[str, bool]]:
+    from mypy.main import define_options
+    return define_options("mypy", "", io.StringIO(), io.StringIO(), False)[2]
+
+
+def defaults_min_version() -> tuple[int, int]:
+    from mypy import defaults
+    return defaults.PYTHON3_VERSION_MIN
 
 
 # =========================================================================== rendering
@@ -203,6 +247,8 @@ class Plan:
         dest = om["dest"]
         filler = next(f for f in FILLERS if f != dest)
         glob_kv = [pick(om["cfg"][rec["g"]])] if rec["g"] != UNSET else []
+        if rec.get("gu"):       # the umbrella key, before or after the explicit key ("regardless of the order")
+            glob_kv.insert(0 if (plain or rnd.random() < 0.5) else len(glob_kv), om["umbrella"]["cfg"])
         secs: list[tuple[list[str], list[tuple[str, Any]]]] = []
         # pyproject.toml only, a deterministic half (by salt) of the configurations with >= 2 sections: the TOML format lets one
         # module be named by several [[tool.mypy.overrides]] tables whose settings are merged.  Consecutive
@@ -252,6 +298,9 @@ class Plan:
                     secs.append(([pat], kv))
         self.text = render_config(fmt, glob_kv, secs, rnd)
         self.cmd = list(pick(om["cmd"][rec["c"]])) if rec["c"] != UNSET else []
+        if rec.get("cu"):
+            self.cmd = ([om["umbrella"]["cmd"]] + self.cmd) if (plain or rnd.random() < 0.5) else (self.cmd + [om["umbrella"]["cmd"]])
+        self.cmd += om.get("ctx", [])
         self.cmd_first = (not plain) and rnd.random() < 0.5
         self.inline = {UNSET: ""}
         for ch in om["cfg"]:
@@ -333,8 +382,8 @@ def replay_plan(plan: Plan, wdir: str, inline_seq: list[str], idx: int) -> dict[
         res["viol"].append({"m": None, "i": None, "why": "rejected: " + complaint})
         return res
     res["complaint"] = complaint
-    if getattr(options, dest) != real[rec["b"]]:
-        res["drift"].append("base: real %r model %r" % (getattr(options, dest), real[rec["b"]]))
+    if obs(options, om) != real[rec["b"]]:
+        res["drift"].append("base: real %r model %r" % (obs(options, om), real[rec["b"]]))
     n = len(MODS)
     with_inline = {(idx * 5 + k * 7) % n for k in range(6)}
     for mi, m in enumerate(MODS):
@@ -342,7 +391,7 @@ def replay_plan(plan: Plan, wdir: str, inline_seq: list[str], idx: int) -> dict[
             if inl != UNSET and mi not in with_inline:
                 continue
             fin, errs = final_options(options, m, plan.inline[inl])
-            got = getattr(fin, dest)
+            got = obs(fin, om)
             res["evals"] += 1
             doc, imp = real[rec["doc"][j][mi]], real[rec["imp"][j][mi]]
             if errs:
@@ -362,14 +411,14 @@ def replay_plan(plan: Plan, wdir: str, inline_seq: list[str], idx: int) -> dict[
             res["drift"].append("ini twin of a split pyproject not accepted: %s" % c2)
         else:
             for m in MODS:
-                a, b = getattr(options.clone_for_module(m), dest), getattr(o2.clone_for_module(m), dest)
+                a, b = obs(options.clone_for_module(m), om), obs(o2.clone_for_module(m), om)
                 res["evals"] += 1
                 if a != b:
                     res["viol"].append({"m": m, "i": UNSET, "got": a, "doc": b, "imp": real[rec["imp"][0][MODS.index(m)]],
                                         "via": "toml-vs-ini"})
     # projection of the real state on the specification's variables
     cache = getattr(options, "_per_module_cache") or {}
-    got_cache = [[k, getattr(val, dest)] for k, val in cache.items()]
+    got_cache = [[k, obs(val, om)] for k, val in cache.items()]
     want_cache = [[k, real[val]] for k, val in rec["k"]]
     if got_cache != want_cache:
         res["drift"].append("_per_module_cache: real %r model %r" % (got_cache, want_cache))
@@ -401,12 +450,17 @@ def _wreplay(task: tuple[list[Any], list[str]]) -> list[Any]:
 
 
 # =========================================================================== keys / minimisation
-def rec_key(secs: list[list[str]], g: str, c: str) -> str:
-    return json.dumps([secs, g, c])
+def rec_key(secs: list[list[str]], g: str, c: str, gu: bool = False, cu: bool = False) -> str:
+    return json.dumps([secs, g, c, bool(gu), bool(cu)])
 
 
-def canon(secs: list[list[str]], g: str, c: str, i: str, m: str | None) -> str:
-    """Value-renaming-invariant name of a configuration (first value seen -> x, second -> y ...)."""
+def rkey(rec: dict[str, Any]) -> str:
+    return rec_key(rec["s"], rec["g"], rec["c"], rec.get("gu", False), rec.get("cu", False))
+
+
+def canon(secs: list[list[str]], g: str, c: str, i: str, m: str | None, gu: bool = False, cu: bool = False) -> str:
+    """Value-renaming-invariant name of a configuration (first value seen -> x, second -> y ...);
+    +U marks the umbrella flag written at that place."""
     names: dict[str, str] = {}
 
     def nm(val: str) -> str:
@@ -416,7 +470,11 @@ def canon(secs: list[list[str]], g: str, c: str, i: str, m: str | None) -> str:
             names[val] = "xyz"[len(names)]
         return names[val]
     s = ",".join("%s=%s" % (p, nm(val)) for p, val in secs)
-    return "s=[%s];g=%s;c=%s;i=%s|m=%s" % (s, nm(g), nm(c), nm(i), m)
+    return "s=[%s];g=%s%s;c=%s%s;i=%s|m=%s" % (s, nm(g), "+U" if gu else "", nm(c), "+U" if cu else "", nm(i), m)
+
+
+def rcanon(rec: dict[str, Any], i: str, m: str | None) -> str:
+    return canon(rec["s"], rec["g"], rec["c"], i, m, rec.get("gu", False), rec.get("cu", False))
 
 
 class Minimiser:
@@ -428,71 +486,80 @@ class Minimiser:
         self.index, self.wdir, self.ref = index, wdir, ref
         self.confirmed: dict[str, Any] = {}
 
-    def check(self, secs: list[list[str]], g: str, c: str, i: str, m: str, om: dict[str, Any] | None) -> Any:
-        """om=None: decide from the specification's own tables (documented value vs transcribed implementation);
-        used when the real code has been seen to agree with the transcription.  Otherwise run the real code."""
-        rec = self.index.get(rec_key(secs, g, c))
+    def check(self, cfg: tuple[Any, ...], m: str, om: dict[str, Any] | None) -> Any:
+        """cfg = (secs, g, c, i, gu, cu).  om=None: decide from the specification's own tables (documented
+        value vs transcribed implementation); used when the real code has been seen to agree with the
+        transcription.  Otherwise run the real code."""
+        secs, g, c, i, gu, cu = cfg
+        rec = self.index.get(rec_key(secs, g, c, gu, cu))
         if rec is None:
             return None
         inline_seq = [UNSET, "p", "q", "r"][:len(rec["doc"])]
         j, mi = inline_seq.index(i), MODS.index(m)
         if om is None:
             return (rec["doc"][j][mi] != rec["imp"][j][mi], {})
-        if (c != UNSET and not om["cmd"].get(c)) or (i not in om["cfg"] and i != UNSET):
+        if (c != UNSET and not om["cmd"].get(c)) or (i not in om["cfg"] and i != UNSET) or ((gu or cu) and "umbrella" not in om):
             return None
         plan = Plan(rec, om, "ini", 0, plain=True)
         options, complaint, _ = real_options(plan, self.wdir)
         if options is None:
             return None
         fin, errs = final_options(options, m, plan.inline[i])
-        got = getattr(fin, om["dest"])
+        got = obs(fin, om)
         doc, imp = om["real"][rec["doc"][j][mi]], om["real"][rec["imp"][j][mi]]
         return (got != doc, {"got": got, "doc": doc, "imp": imp, "config": plan.text, "argv": plan.argv("mypy.ini"),
                              "inline": plan.inline[i], "option_in_minimal_configuration": om["dest"]})
 
     def minimise(self, rec: dict[str, Any], i: str, m: str, om: dict[str, Any], design: bool) -> tuple[str, dict[str, Any]]:
-        secs, g, c = [list(x) for x in rec["s"]], rec["g"], rec["c"]
+        cfg: tuple[Any, ...] = ([list(x) for x in rec["s"]], rec["g"], rec["c"], i, bool(rec.get("gu")), bool(rec.get("cu")))
+        umb = cfg[4] or cfg[5]
         if design:
             use: Any = None
             tag = "*"
-            first = self.check(secs, g, c, i, m, None)
+            first = self.check(cfg, m, None)
         else:
             # under the reference option (follow_imports: all model values map to distinct real values)
             # when the disagreement is not specific to the option it was seen with
             use, tag = self.ref, "*"
-            first = self.check(secs, g, c, i, m, use)
+            first = self.check(cfg, m, use)
             if first is None or not first[0]:
                 use, tag = om, om["dest"]
-                first = self.check(secs, g, c, i, m, use)
+                first = self.check(cfg, m, use)
         if first is None or not first[0]:
             return "", {}      # specific to the spelling / file format: caller keeps the full case
         detail = first[1]
         changed = True
         while changed:
             changed = False
-            cands: list[tuple[list[list[str]], str, str, str]] = []
+            secs, g, c, i, gu, cu = cfg
+            cands: list[tuple[Any, ...]] = []
             for k in range(len(secs)):
-                cands.append((secs[:k] + secs[k + 1:], g, c, i))
+                cands.append((secs[:k] + secs[k + 1:], g, c, i, gu, cu))
             for k in range(len(secs)):
                 if secs[k][1] != UNSET:
-                    cands.append((secs[:k] + [[secs[k][0], UNSET]] + secs[k + 1:], g, c, i))
+                    cands.append((secs[:k] + [[secs[k][0], UNSET]] + secs[k + 1:], g, c, i, gu, cu))
             if g != UNSET:
-                cands.append((secs, UNSET, c, i))
+                cands.append((secs, UNSET, c, i, gu, cu))
             if c != UNSET:
-                cands.append((secs, g, UNSET, i))
+                cands.append((secs, g, UNSET, i, gu, cu))
             if i != UNSET:
-                cands.append((secs, g, c, UNSET))
-            for s2, g2, c2, i2 in cands:
-                r = self.check(s2, g2, c2, i2, m, use)
+                cands.append((secs, g, c, UNSET, gu, cu))
+            if gu:
+                cands.append((secs, g, c, i, False, cu))
+            if cu:
+                cands.append((secs, g, c, i, gu, False))
+            for cand in cands:
+                r = self.check(cand, m, use)
                 if r is not None and r[0]:
-                    secs, g, c, i, detail = s2, g2, c2, i2, r[1]
+                    cfg, detail = cand, r[1]
                     changed = True
                     break
-        name = canon(secs, g, c, i, m)
+        secs, g, c, i, gu, cu = cfg
+        name = canon(secs, g, c, i, m, gu, cu)
         if design:
             # the minimal configuration is confirmed against the real code (once per configuration)
             if name not in self.confirmed:
-                self.confirmed[name] = self.check(secs, g, c, i, m, self.ref)
+                self.confirmed[name] = self.check(cfg, m, om if (gu or cu or umb) and "umbrella" in om else self.ref)
             r = self.confirmed[name]
             if r is None or not r[0] or r[1]["got"] != r[1]["imp"]:
                 return "", {}
@@ -597,7 +664,7 @@ def _wbuild(task: tuple[int, dict[str, Any], dict[str, Any], str, int, list[str]
     for m in MODS:
         j, mi = inline_seq.index(choice[m]), MODS.index(m)
         doc, imp = real[rec["doc"][j][mi]], real[rec["imp"][j][mi]]
-        got = getattr(opts[m], dest)
+        got = obs(opts[m], om)
         out["evals"] += 1
         if got != doc:
             out["viol"].append({"m": m, "i": choice[m], "got": got, "doc": doc, "imp": imp, "via": "State.options"})
@@ -607,18 +674,22 @@ def _wbuild(task: tuple[int, dict[str, Any], dict[str, Any], str, int, list[str]
         if dest in WITNESS_OPTS:
             # diagnostics oracle: what the same module reports when the documented value is given to
             # everybody by one [mypy] line (learned from a real run of the real code)
+            # when the configuration writes the umbrella flag, every OTHER member of the group has the
+            # umbrella's value for every module: the baseline is then a run with --strict and the option's own flag
+            umb = bool(rec.get("gu") or rec.get("cu"))
             for val in {doc, imp}:
-                if (dest, val) not in base:
+                if (dest, val, umb) not in base:
                     bt = os.path.join(_W["dir"], "btree")
                     write_tree(bt, {})
-                    _, bd, _ = inproc_build(bt, [], render_config("ini", [(dest, val)], [], random.Random(0)), "ini")
+                    kvs = ([om["umbrella"]["cfg"]] if umb else []) + [(dest, val)]    # same place: the explicit line wins
+                    _, bd, _ = inproc_build(bt, [], render_config("ini", kvs, [], random.Random(0)), "ini")
                     if not any(bd.values()) and dest != "ignore_errors":
                         out["machinery"] = "baseline build reports nothing (vacuous witness)"
                         return out
-                    base[(dest, val)] = bd
-            if diags[m] != base[(dest, doc)][m]:
-                out["viol"].append({"m": m, "i": choice[m], "got": diags[m], "doc": base[(dest, doc)][m],
-                                    "imp": base[(dest, imp)][m], "via": "diagnostics"})
+                    base[(dest, val, umb)] = bd
+            if diags[m] != base[(dest, doc, umb)][m]:
+                out["viol"].append({"m": m, "i": choice[m], "got": diags[m], "doc": base[(dest, doc, umb)][m],
+                                    "imp": base[(dest, imp, umb)][m], "via": "diagnostics"})
     return out
 
 
@@ -629,16 +700,18 @@ def cli_run(tree: str, argv: list[str]) -> tuple[int, dict[str, list[str]], str]
     return p.returncode, per_module_diags(p.stdout.splitlines()), p.stderr.strip()
 
 
-def _cli_baseline(task: tuple[str, str, Any]) -> tuple[str, Any, Any]:
-    root, dest, val = task
-    bt = os.path.join(root, "clibase-%s-%s" % (dest, val))
+def _cli_baseline(task: tuple[str, str, Any, str]) -> tuple[str, Any, bool, Any]:
+    """Diagnostics of the plain tree when the option has `val` for everybody (one [mypy] line); with `umb` the
+    rest of the umbrella's group is switched on too (the umbrella key in the same [mypy] section, where the explicit line wins)."""
+    root, dest, val, umb = task
+    bt = os.path.join(root, "clibase-%s-%s-%s" % (dest, val, bool(umb)))
     write_tree(bt, {})
     with open(os.path.join(bt, "mypy.ini"), "w") as f:
-        f.write(render_config("ini", [(dest, val)], [], random.Random(0)))
+        f.write(render_config("ini", ([("strict", True)] if umb else []) + [(dest, val)], [], random.Random(0)))
     rc, d, err = cli_run(bt, ["--config-file", "mypy.ini"])
     if rc not in (0, 1) or err:
         raise MachineryError("baseline CLI run failed: %s %s" % (rc, err[-300:]))
-    return dest, val, d
+    return dest, val, bool(umb), d
 
 
 def _wcli(task: tuple[int, dict[str, Any], dict[str, Any], str, int, list[str], str, dict[Any, Any]]) -> dict[str, Any]:
@@ -662,10 +735,11 @@ def _wcli(task: tuple[int, dict[str, Any], dict[str, Any], str, int, list[str], 
         j, mi = inline_seq.index(choice[m]), MODS.index(m)
         doc = real[rec["doc"][j][mi]]
         out["evals"] += 1
-        want = base[(dest, doc)][m]
+        umb = bool(rec.get("gu") or rec.get("cu"))
+        want = base[(dest, doc, umb)][m]
         if diags[m] != want:
             out["viol"].append({"m": m, "i": choice[m], "got": diags[m], "doc": want,
-                                "imp": base[(dest, real[rec["imp"][j][mi]])][m], "via": "cli-diagnostics"})
+                                "imp": base[(dest, real[rec["imp"][j][mi]], umb)][m], "via": "cli-diagnostics"})
     return out
 
 
@@ -869,6 +943,52 @@ def _wequiv(task: tuple[dict[str, Any], int]) -> dict[str, Any]:
     return out
 
 
+def _wleak(task: tuple[dict[str, Any], int]) -> dict[str, Any]:
+    """Locality of per-module sections (config_file.rst: they "specify additional flags that only apply to
+    modules whose name matches"): writing `key = value` into [mypy-pkg.mod] must change nothing for the global
+    Options and for a module the pattern does not match, compared with the same file without that line
+    (real vs real), whether or not the key is accepted there."""
+    st, seed = task
+    wdir = _W["dir"]
+    out: dict[str, Any] = {"id": st["id"], "runs": 0, "leaks": []}
+    for key, val in st["cfg"]:
+        for fmt in ("ini", "toml"):
+            rnd = random.Random(seed)
+            tail = ["--no-site-packages", "-c", "pass"]
+            snaps = []
+            for kv in ([], [(key, val)]):
+                plan = RawPlan(fmt, render_config(fmt, [], [(["pkg.mod"], kv)], rnd), tail)
+                o, c, _ = real_options(plan, wdir)
+                out["runs"] += 1
+                if o is None:
+                    snaps.append(None)
+                    continue
+                other, _ = final_options(o, "other.mod", "")
+                snaps.append((snap(o, SNAP_INPUT_ONLY), snap(other, SNAP_INPUT_ONLY)))
+            if snaps[0] is None or snaps[1] is None:
+                continue
+            for scope, a, b in (("global", snaps[0][0], snaps[1][0]), ("other-module", snaps[0][1], snaps[1][1])):
+                if a != b:
+                    d = sorted(k for k in set(a) | set(b) if a.get(k) != b.get(k))
+                    out["leaks"].append({"key": key, "fmt": fmt, "scope": scope, "attrs": d})
+    return out
+
+
+def global_error_code_rule(wdir: str) -> list[str]:
+    """config_file.rst, confval enable_error_code: "This option will override disabled error codes from the
+    disable_error_code option" -- on the global level enabling wins whichever of command line / [mypy] says so."""
+    bad = []
+    om = {"kind": "errcode", "dest": "error_code"}
+    for cmd, cfg in ((["--enable-error-code", ERRCODE], [("disable_error_code", [ERRCODE])]),
+                     (["--disable-error-code", ERRCODE], [("enable_error_code", [ERRCODE])])):
+        for fmt in ("ini", "toml"):
+            plan = RawPlan(fmt, render_config(fmt, cfg, [], random.Random(0)), cmd + ["-c", "pass"])
+            o, c, _ = real_options(plan, wdir)
+            if o is None or c or obs(o, om) != "enabled" or obs(final_options(o, "pkg.mod", "")[0], om) != "enabled":
+                bad.append("%s + %s (%s): %s" % (cmd, cfg, fmt, c or (o is not None and obs(o, om))))
+    return bad
+
+
 EQUIV_WITNESS = ("--disallow-untyped-defs", "--no-strict-optional", "--disallow-any-explicit", "--check-untyped-defs",
                  "--no-warn-no-return", "--allow-untyped-defs", "--strict-optional")
 
@@ -1001,8 +1121,10 @@ def run_tlc(tier: str, seed: int) -> dict[str, Any]:
            heap="3g")
         go("mc3v", "MC_Config_3v.cfg", timeout=900, workers=2)
         go("doc", "MC_Config_Doc.cfg", coverage=False, workers=1, heap="1g")
-        for m in ("NoSort", "ConcreteFirst", "FirstGlobWins"):
+        for m in ("NoSort", "ConcreteFirst", "FirstGlobWins", "UmbrellaBeforeConfig"):
             go("mut:" + m, "Mut_Config_%s.cfg" % m, coverage=False, workers=1, heap="1g")
+        go("mcU", "MC_Config_U.cfg", timeout=900, workers=2)
+        go("genU", "Gen_Config_U2.cfg" if thorough else "Gen_Config_U1.cfg", coverage=False, workers=2, timeout=900, heap="1g")
         if thorough:
             go("mcB", "MC_Config_B.cfg", timeout=1500, workers=4)
         return {k: f.result() for k, f in jobs.items()}
@@ -1061,7 +1183,7 @@ def main(argv: list[str]) -> int:
     states = transitions = 0
 
     # ---- 1. model checking results
-    for name in ("mc", "mc3v", "mcB"):
+    for name in ("mc", "mc3v", "mcB", "mcU"):
         if name not in R:
             continue
         r = R[name]
@@ -1084,7 +1206,8 @@ def main(argv: list[str]) -> int:
                 "leading star too. The exhaustive configs use the reading under which a leading star needs one "
                 "component (what compile_glob does); the replay oracle is the literal reading."}
     mut = {}
-    for m, inv in (("NoSort", "ParentsFirst"), ("ConcreteFirst", "PrecedenceAsDocumented"), ("FirstGlobWins", "PrecedenceAsDocumented")):
+    for m, inv in (("NoSort", "ParentsFirst"), ("ConcreteFirst", "PrecedenceAsDocumented"), ("FirstGlobWins", "PrecedenceAsDocumented"),
+                   ("UmbrellaBeforeConfig", "PrecedenceAsDocumented")):
         rm = R["mut:" + m]
         mut[m] = rm.violated
         if rm.violated != inv:
@@ -1107,7 +1230,7 @@ def main(argv: list[str]) -> int:
     recs: list[dict[str, Any]] = []
     for k in range(1, 7):
         for r in records("gen:%d" % k):
-            key = rec_key(r["s"], r["g"], r["c"])
+            key = rkey(r)
             if key not in index:
                 index[key] = r
                 recs.append(r)
@@ -1118,7 +1241,7 @@ def main(argv: list[str]) -> int:
     if not thorough:
         n4 = 0
         for r in records("sim4"):
-            key = rec_key(r["s"], r["g"], r["c"])
+            key = rkey(r)
             if key not in index and len(r["s"]) == 4:
                 index[key] = r
                 recs.append(r)
@@ -1127,10 +1250,15 @@ def main(argv: list[str]) -> int:
             raise MachineryError("simulation produced too few 4-section configurations: %d" % n4)
     else:
         n4 = sum(1 for r in recs if len(r["s"]) == 4)
+    recsU = [r for r in records("genU") if r["gu"] or r["cu"]]     # configurations with an umbrella flag
+    for r in recsU:
+        index[rkey(r)] = r
+    if len(recsU) != (7803 if thorough else 513):
+        raise MachineryError("unexpected number of umbrella configurations: %d" % len(recsU))
     recs3v = records("gen3v")
-    index3v = {rec_key(r["s"], r["g"], r["c"]): r for r in recs3v}
+    index3v = {rkey(r): r for r in recs3v}
     recsB = records("genB") if thorough else []
-    indexB = {rec_key(r["s"], r["g"], r["c"]): r for r in recsB}
+    indexB = {rkey(r): r for r in recsB}
 
     # ---- 3. refinement maps
     maps = build_optmaps()
@@ -1150,7 +1278,9 @@ def main(argv: list[str]) -> int:
 
     def pick_map(idx: int, rec: dict[str, Any]) -> dict[str, Any]:
         pool = pm_bool_cmd if rec["c"] != UNSET else pm_bool
-        k = (idx * 7 + seed * 13) % (len(pool) + 3)
+        k = (idx * 7 + seed * 13) % (len(pool) + 4)
+        if k == len(pool) + 3 and not (rec["g"] != UNSET and rec["c"] != UNSET and rec["g"] != rec["c"]):
+            return maps["error_code"]
         return enum if k >= len(pool) else fit(pool[k], rec)
 
     items2: list[Any] = []
@@ -1174,8 +1304,27 @@ def main(argv: list[str]) -> int:
                 continue
             if not om["per_module"] and rec["s"]:
                 continue
+            if om.get("skip_global_conflict") and rec["g"] != UNSET and rec["c"] != UNSET and rec["g"] != rec["c"]:
+                continue
             it = (idx, rec, om, FORMATS[(oi + si + seed) % nfmt], seed * 7 + oi * 1000 + si)
             idx += 1
+            (items2 if om["per_module"] else g_items).append(it)
+
+    # umbrella flags: every member option of --strict / strict=True x every configuration that writes the
+    # umbrella on the command line and/or in [mypy] (with <=1 section on top; thorough: <=2)
+    members = [m for m in sorted(maps.values(), key=lambda m: m["dest"]) if "umbrella" in m]
+    if len(members) < 10:
+        raise MachineryError("strict group looks wrong: %d members with an option map" % len(members))
+    n_umb = 0
+    for ui, rec in enumerate(recsU):
+        for oi, om in enumerate(members):
+            if (not om["per_module"] and rec["s"]) or not usable(om, rec):
+                continue
+            if thorough and len(rec["s"]) == 2 and (ui + oi) % 4:
+                continue
+            it = (idx, rec, om, FORMATS[(ui + oi + seed) % nfmt], seed * 11 + ui * 100 + oi)
+            idx += 1
+            n_umb += 1
             (items2 if om["per_module"] else g_items).append(it)
 
     def chunks(items: list[Any], inl: list[str], n: int = 200) -> list[Any]:
@@ -1214,6 +1363,12 @@ def main(argv: list[str]) -> int:
             rec = rnd.choice(recs)
             om = fit(rnd.choice(witness_maps + [enum]), rec)
             btasks.append((1000 + i, rec, om, rnd.choice(FORMATS), seed * 31 + 1000 + i, inline2))
+        # umbrella configurations through real builds (members of the strict group that have a witness)
+        umb_w = [maps[d] for d in ("disallow_untyped_defs", "check_untyped_defs") if "umbrella" in maps[d]]
+        for i, rec in enumerate(recsU[(seed % 8)::(40 if thorough else 8)]):
+            om = umb_w[i % len(umb_w)]
+            if usable(om, rec):
+                btasks.append((5000 + i, rec, om, FORMATS[i % nfmt], seed * 31 + 5000 + i, inline2))
         builds = build_evals = 0
         bbad: list[Any] = []
         for out in pool.imap_unordered(_wbuild, btasks, chunksize=4):
@@ -1229,6 +1384,7 @@ def main(argv: list[str]) -> int:
         t3 = time.time()
         settings = equivalence_settings()
         eq = list(pool.imap_unordered(_wequiv, [(s, seed) for s in settings], chunksize=2))
+        leak = list(pool.imap_unordered(_wleak, [(s, seed) for s in settings], chunksize=4))
         wit = [s for s in settings if s["id"] in EQUIV_WITNESS]
         eqd = list(pool.imap_unordered(_wequiv_diag, [(s, seed) for s in wit]))
         for e in eqd:
@@ -1243,8 +1399,10 @@ def main(argv: list[str]) -> int:
     cli_maps = [maps["disallow_untyped_defs"], maps["strict_optional"], maps["ignore_errors"]]
     with ThreadPoolExecutor(nproc + 2) as ex:
         cw_f = [ex.submit(_cli_witness, (i, root)) for i in range(len(CLI_WITNESS))]   # run alongside the sample
-        cbase = {(d, val): diag for d, val, diag in
-                 ex.map(_cli_baseline, [(root, m["dest"], val) for m in cli_maps for val in (True, False)])}
+        cbase = {(d, val, u): diag for d, val, u, diag in
+                 ex.map(_cli_baseline, [(root, m["dest"], val, "") for m in cli_maps for val in (True, False)]
+                        + [(root, cli_maps[0]["dest"], val, cli_maps[0]["umbrella"]["cmd"]) for val in (True, False)
+                           if "umbrella" in cli_maps[0]])}
         if not any(any(x.values()) for x in cbase.values()):
             raise MachineryError("command-line baselines report nothing (vacuous witness)")
         ctasks = []
@@ -1256,6 +1414,12 @@ def main(argv: list[str]) -> int:
             if not usable(om, rec):
                 rec = small[0]
             ctasks.append((i, rec, om, FORMATS[i % nfmt], seed * 17 + i, inline2, root, cbase))
+        # the command line's own umbrella: --strict against an explicit [mypy] line, and strict=True against a flag
+        for j, want in enumerate(((True, "q", UNSET, False), (False, UNSET, "q", True))):
+            rec = next((r for r in recsU if (r["cu"], r["g"], r["c"], r["gu"]) == want and len(r["s"]) == 1
+                        and r["s"][0][0] == ("a.*", "*.b")[(j + seed) % 2] and r["s"][0][1] == "q"), None)
+            if rec is not None and "umbrella" in cli_maps[0]:
+                ctasks.append((ncli + j, rec, cli_maps[0], FORMATS[(j + seed) % nfmt], seed * 17 + ncli + j, inline2, root, cbase))
         cli_runs = cli_evals = 0
         cbad: list[Any] = []
         for out in ex.map(_wcli, ctasks):
@@ -1289,14 +1453,14 @@ def main(argv: list[str]) -> int:
         plan = Plan(rec, om, fmt, salt)
         dest = om["dest"]
         if vi.get("m") is None or "why" in vi:
-            key = "rejected:%s:%s:%s" % (dest, fmt, canon(rec["s"], rec["g"], rec["c"], vi.get("i") or UNSET, vi.get("m")))
+            key = "rejected:%s:%s:%s" % (dest, fmt, rcanon(rec, vi.get("i") or UNSET, vi.get("m")))
             v.violation(key, {"config": plan.text, "argv": plan.argv(FILE_NAMES[fmt]), "inline": plan.inline},
                         "configuration not accepted (%s): %s" % (via, vi.get("why")))
             return
         design = "imp" in vi and vi.get("got") == vi.get("imp")
-        mk = (rec_key(rec["s"], rec["g"], rec["c"]), vi["i"], vi["m"], "*" if design else dest)
+        mk = (rkey(rec), vi["i"], vi["m"], "*" if design else dest)
         if mk not in memo:
-            mini = miniB if rec_key(rec["s"], rec["g"], rec["c"]) in indexB else minis[len(rec["doc"])]
+            mini = miniB if rkey(rec) in indexB else minis[len(rec["doc"])]
             if design or budget[0] > 0:
                 if not design:
                     budget[0] -= 1
@@ -1307,7 +1471,7 @@ def main(argv: list[str]) -> int:
         key, detail = memo[mk]
         if not key:
             kind = "design" if design else "code:" + dest
-            key = "%s:%s:%s:%s" % (kind, via, fmt, canon(rec["s"], rec["g"], rec["c"], vi["i"], vi["m"]))
+            key = "%s:%s:%s:%s" % (kind, via, fmt, rcanon(rec, vi["i"], vi["m"]))
             detail = {"got": vi.get("got"), "doc": vi.get("doc"), "imp": vi.get("imp"), "config": plan.text,
                       "argv": plan.argv(FILE_NAMES[fmt]), "inline": plan.inline[vi["i"]]}
         reported[key] = reported.get(key, 0) + 1
@@ -1349,6 +1513,17 @@ def main(argv: list[str]) -> int:
         for d in e["accept_diff"]:
             v.violation("equiv-accept:%s:%s:%s" % (e["id"], d["key"], ",".join(d["rejected"])), d,
                         "setting %s spelled %s is accepted by %s but rejected by %s" % (e["id"], d["key"], d["accepted"], d["rejected"]))
+    leak_keys: dict[str, Any] = {}
+    for e in leak:
+        for d in e["leaks"]:
+            leak_keys.setdefault("section-leak:%s" % d["key"], []).append(d)
+    for key in sorted(leak_keys):
+        d = leak_keys[key][0]
+        v.violation(key, leak_keys[key], "`%s = ...` written in the per-module section [mypy-pkg.mod] changes the %s options "
+                    "(attributes %s) although the section does not match them"
+                    % (d["key"], " and ".join(sorted({x["scope"] for x in leak_keys[key]})), d["attrs"]))
+    for msg in global_error_code_rule(_W["dir"]):
+        v.violation("errcode-global:" + msg[:100], msg, "global enable_error_code does not override disable_error_code: " + msg)
     for e in sorted(eqd, key=lambda e: e["id"]):
         for d in e["diff"]:
             v.violation("equiv-diag:%s:%s~%s:%s" % (e["id"], d["a"], d["b"], d["scope"]), d,
@@ -1364,24 +1539,30 @@ def main(argv: list[str]) -> int:
 
     # ---- 9. evidence
     nontrivial = 0
-    for rec in recs + recs3v + recsB:
+    for rec in recs + recs3v + recsB + recsU:
         vals = [x[1] for x in rec["s"] if x[1] != UNSET] + [x for x in (rec["g"], rec["c"]) if x != UNSET]
+        vals += ["p"] if (rec.get("gu") or rec.get("cu")) else []
         if len(set(vals)) >= 2:
             nontrivial += 1
     sample_rec = recs[len(recs) // 2]
     sample_plan = Plan(sample_rec, maps["disallow_untyped_defs"], "ini", 1)
+    usample = next(r for r in recsU if r["cu"] and r["g"] == "q" and r["s"])
+    uplan = Plan(usample, maps["disallow_untyped_defs"], "ini", 1)
     coverage = {
         "states": states, "transitions": transitions,
         "traces_validated_against_impl": replayed + builds + cli_runs,
-        "configurations_emitted": len(recs) + len(recs3v) + len(recsB),
+        "configurations_emitted": len(recs) + len(recs3v) + len(recsB) + len(recsU),
         "configurations_exhaustive": n_exh, "configurations_with_4_sections": n4,
         "configurations_3_values": len(recs3v), "configurations_second_alphabet": len(recsB),
         "replays_process_options": replayed, "value_comparisons": evals,
+        "configurations_with_umbrella_flag": len(recsU), "replays_umbrella_x_member_option": n_umb,
+        "umbrella_members": [m["dest"] for m in members],
         "replays_pyproject_list_valued_tables": n_split, "replays_pyproject_module_named_again_by_later_table": n_later,
         "real_builds": builds, "real_build_module_comparisons": build_evals,
         "command_line_runs": cli_runs, "command_line_module_comparisons": cli_evals,
         "equivalence_settings": len(settings), "equivalence_runs": eq_runs, "equivalence_comparisons": eq_pairs,
         "equivalence_spellings_not_accepted_anywhere": not_accepted,
+        "section_locality_runs": sum(e["runs"] for e in leak), "section_locality_leaks": sorted(leak_keys),
         "equivalence_diagnostic_settings": len(eqd), "equivalence_command_line_witnesses": len(cw),
         "equivalence_command_line_runs": sum(e["runs"] for e in cw),
         "options_rotated": sorted(m["dest"] for m in maps.values()),
@@ -1397,7 +1578,8 @@ def main(argv: list[str]) -> int:
                 "thorough: a second pattern alphabet. distinct_nontrivial = emitted configurations in which at least two "
                 "sources give different values",
         "samples": [{"model_record": sample_rec, "config_file": sample_plan.text, "argv": sample_plan.argv("mypy.ini"),
-                     "inline": sample_plan.inline}],
+                     "inline": sample_plan.inline},
+                    {"model_record": usample, "config_file": uplan.text, "argv": uplan.argv("mypy.ini"), "inline": uplan.inline}],
         "tlc": cov,
         "timing_s": {"tlc": round(t_tlc, 1), "replay": round(t_replay, 1), "builds": round(t_build, 1),
                      "equivalence": round(t_equiv, 1), "cli": round(t_cli, 1)},
